@@ -35,6 +35,8 @@ def gen_schedule(rng: random.Random, fault_class):
     if gran.startswith("opcode") and p > 0.2:
         p = 0.1
     faults = {}
+    if fault_class == "sched+F10":
+        faults["F10"] = rng.choice([0.2, 0.5, 1.0])
     if fault_class == "sched+F6F7":
         if rng.random() < 0.6:
             faults["F6"] = rng.choice([0.05, 0.15])
@@ -71,7 +73,7 @@ def generate(seed: int, tier: str):
     w = C.gen_world(rng)
     n_ops = rng.choice([1, 1, 2, 2, 3])
     ops = [C.gen_op(rng, w) for _ in range(n_ops)]
-    fault_class = rng.choice(["sched", "sched", "sched+F6F7", "sched+F6F7", "F8"])
+    fault_class = rng.choice(["sched", "sched", "sched+F6F7", "sched+F6F7", "F8", "sched+F10"])
     if fault_class == "F8" and not any(s["kind"] == "sim" for s in w["storage"]):
         chunks, style = W.gen_chunks(rng, w["shapes"][0])
         w["storage"][0] = {"kind": "sim", "chunks": chunks, "style": style}
